@@ -9,6 +9,14 @@ HERE = os.path.dirname(os.path.dirname(os.path.abspath(__file__)))
 
 # id -> (level, technique, level text, level note, design ref)
 CHECKS = {
+    "C02": ("exploration",
+            "Hypothesis-generated responses x bounded-exhaustive cut/truncation positions against the server plan's ground truth",
+            "Each generated well-formed HTTP/1.1 or HTTP/2 response is delivered whole, byte-at-a-time, split at every single "
+            "position, at drawn multi-cut sets, and truncated at every position; the caller must see exactly the planned "
+            "status/reason/version/headers/body, or an error for an incomplete message.",
+            "Own wire builders (vf/peers/h1.py, h2.py on hyperframe+hpack) define ground truth; responses are sampled, cut "
+            "positions exhaustive per response up to 1200 wire bytes (structural offsets + grid beyond).",
+            "3 C02"),
     "C18": ("translation_validation",
             "exhaustive line-by-line re-translation with the repository's own unasync_line + generated sync/async differential",
             "Every line of every _async/_sync file pair is re-translated and compared (exhaustive over the source); generated "
